@@ -14,6 +14,23 @@ func c08FibStruct(c *h.Ctx, fibs []*fibImpl, ref *refFib, m int, fail func(key, 
 	for _, f := range fibs {
 		info := table.VerifFibStats(f.t)
 		c.Count("fib_struct_checks", 1)
+		// next-hop records: exactly those of the live entries (the root entry has no node of its
+		// own to count, so the node comparison below cannot see a record left behind there)
+		wantRec, gotRec := map[string]int{}, map[string]int{}
+		for k, e := range ref.m {
+			if len(e.hops) > 0 {
+				wantRec[k] = len(e.hops)
+			}
+		}
+		for _, e := range f.t.GetAllFIBEntries() {
+			if nh := e.GetNextHops(); len(nh) > 0 {
+				gotRec[nkey(e.Name())] = len(nh)
+			}
+		}
+		if fmt.Sprint(wantRec) != fmt.Sprint(gotRec) {
+			fail("C08:fib-nexthop-records-beyond-live-entries", fmt.Sprintf("%s FIB holds next-hop records %v, the live entries require %v", info.Kind, gotRec, wantRec),
+				map[string]any{"impl": info.Kind, "held": gotRec, "required": wantRec})
+		}
 		switch info.Kind {
 		case "nametree":
 			// nodes required = union of the paths to reference entries
